@@ -50,6 +50,10 @@ func backtrackCases(c *ctx, n int, nIn int, probes bool, inline bool) []*gcase {
 func c03(c *ctx) {
 	cases := backtrackCases(c, tierN(c, 240, 5000), 16, false, false)
 	cfgs := []config{{name: "memo", v: vPlain, memo: true}, {name: "nomemo", v: vPlain}, {name: "size1", v: vPlain, memo: true, size: 1}, {name: "size4", v: vPlain, size: 4}, {name: "both", v: vBoth, memo: true}}
+	// more initial capacities, so that for many inputs the token count lands exactly on / one past the capacity
+	for _, sz := range []int{2, 3, 5, 8, 13, 21} {
+		cfgs = append(cfgs, config{name: fmt.Sprintf("size%d", sz), v: vPlain, memo: sz%2 == 1, size: sz})
+	}
 	f := &family{c: c, tag: "c03", configs: cfgs, noexec: true, history: []string{"memo", "both"}}
 	f.judge = func(cs *gcase, e entry, it *ref.Interp, refOK bool, refEnd int, res map[string]*corpus.Res) {
 		covAccumulate(c, it)
@@ -86,13 +90,22 @@ func c03(c *ctx) {
 		if refOK && (it.Cov["nonempty_tokens_discarded"] > 0) {
 			c.run.Nontrivial(id)
 		}
+		if refOK {
+			for _, sz := range []int{1, 2, 3, 4, 5, 8, 13, 21} {
+				if len(it.Toks) == sz {
+					c.run.Count("token_count_equals_initial_capacity", 1)
+				} else if len(it.Toks) == sz+1 {
+					c.run.Count("token_count_one_past_initial_capacity", 1)
+				}
+			}
+		}
 		if refOK && len(it.Toks) > 3 {
 			c.run.Sample(map[string]any{"grammar": cs.text, "entry": e.ruleName(cs.g), "input": e.input, "tokens": want, "tokens_discarded_during_parse": it.Cov["tokens_discarded"]}, 3)
 		}
 	}
 	f.run(cases)
-	requireCov(c, "ref_nonempty_tokens_discarded_lookahead", "ref_nonempty_tokens_discarded_seqfail", "ref_capture_discarded_lookahead", "ref_action_discarded_seqfail", "ref_action_discarded_lookahead", "ref_seq_failed_after_tokens", "ref_capture_completed_in_lookahead")
-	c.run.Rule = "cases: shared-prefix grammars (alternatives repeating a prefix of rule calls, captures and actions before the point of failure; repetitions whose last iteration fails after writing tokens; captures/actions/rule calls inside & and !) plus all-operator grammars; multi-byte alphabet; token buffer Size unset/1/4, memo on/off, plus -inline -switch; every rule used as entry. " +
+	requireCov(c, "token_count_equals_initial_capacity", "token_count_one_past_initial_capacity", "ref_nonempty_tokens_discarded_lookahead", "ref_nonempty_tokens_discarded_seqfail", "ref_capture_discarded_lookahead", "ref_action_discarded_seqfail", "ref_action_discarded_lookahead", "ref_seq_failed_after_tokens", "ref_capture_completed_in_lookahead")
+	c.run.Rule = "cases: shared-prefix grammars (alternatives repeating a prefix of rule calls, captures and actions before the point of failure; repetitions whose last iteration fails after writing tokens; captures/actions/rule calls inside & and !) plus all-operator grammars; multi-byte alphabet; token buffer Size unset/1/2/3/4/5/8/13/21 (the evidence counts how often the token count landed exactly on / one past the initial capacity), memo on/off, plus -inline -switch; every rule used as entry. " +
 		"Oracle: the token list (rule, begin, end in runes) equals the reference interpreter's post-order record of the successful derivation, plus reference-free invariants (bounds, last token = entry rule over the consumed prefix, laminar post-order). " +
 		"distinct_nontrivial = distinct accepted (grammar, entry, input) during whose parse the reference discarded at least one non-empty token on backtracking or at the end of a lookahead."
 	c.run.Assume("well-formed grammars; tokens after a failed parse are unspecified and not observed")
